@@ -251,7 +251,16 @@ def law_cases(draw):
 
 @st.composite
 def privkey_cases(draw):
-    kind = draw(st.sampled_from(["len", "boundary", "valid", "random32"]))
+    kind = draw(st.sampled_from(["len", "len-near-valid", "boundary", "valid", "random32"]))
+    if kind == "len-near-valid":
+        # a valid key in a byte string of the wrong length: padded with a zero / sign / flag byte at either end, or with
+        # its leading zero byte dropped (encodings other layers use for the same integer)
+        k = draw(gen.scalars_valid()).to_bytes(32, "big")
+        how = draw(st.sampled_from(["00+k", "0000+k", "k+00", "k+01", "01+k", "strip"]))
+        body = {"00+k": b"\x00" + k, "0000+k": b"\x00\x00" + k, "k+00": k + b"\x00", "k+01": k + b"\x01", "01+k": b"\x01" + k, "strip": k.lstrip(b"\x00")[:31]}[how]
+        if len(body) == 32:
+            body = body[1:]
+        return {"key": body.hex()}
     if kind == "len":
         n = draw(st.integers(0, 40).filter(lambda n: n != 32))
         body = draw(st.sampled_from([b"\x00", b"\x01", b"\xff"])) * n if draw(st.booleans()) else draw(st.binary(min_size=n, max_size=n))
